@@ -277,6 +277,10 @@ func decodeStructValueSlice(field reflect.Value, fieldType reflect.StructField, 
 		strip = it
 	}
 
+	/* Start from an empty list: the target may already hold the entries of
+	 * an earlier paragraph (a Decoder loop reuses its struct). */
+	field.Set(reflect.Zero(field.Type()))
+
 	value = strings.Trim(value, strip)
 	if value == "" {
 		/* An empty field is an empty list, not a list of one empty element */
